@@ -12,6 +12,7 @@ mod a_world;
 mod alloc_count;
 mod checks;
 mod core;
+mod dict;
 mod engine_a;
 mod engine_b;
 mod engine_c;
@@ -163,6 +164,27 @@ fn cmd_check(args: &[String]) -> i32 {
         println!("WARNING: reach probe {p} stayed at zero in this run");
     }
     let mut assumptions: Vec<String> = check.assumptions.iter().map(|s| s.to_string()).collect();
+    if matches!(check.prop, "C10" | "C11" | "C12" | "C20") {
+        // thread-sim's scheduling points are the chunker's mutex and the wakers. Shared state that
+        // bypasses the mutex is interleaved only at those points; say so when the source has any.
+        let mut hits = Vec::new();
+        for f in ["chunker.rs", "gzip.rs", "body.rs"] {
+            if let Ok(t) = std::fs::read_to_string(format!("/repo/src/{f}")) {
+                let code = t.split("#[cfg(test)]").next().unwrap_or("").to_string();
+                for pat in ["Atomic", "static mut", "UnsafeCell", "thread_local!"] {
+                    if code.contains(pat) {
+                        hits.push(format!("{f}: {pat}"));
+                    }
+                }
+            }
+        }
+        if hits.is_empty() {
+            assumptions.push("source scan: no atomics / thread-locals / UnsafeCell in chunker.rs, gzip.rs, body.rs - all producer/consumer shared state is under the instrumented mutex".into());
+        } else {
+            println!("WARNING: shared state outside the instrumented mutex: {hits:?} (interleaved only at lock and wake points)");
+            assumptions.push(format!("source scan found shared state outside the instrumented mutex: {hits:?}; it is interleaved only at lock/wake scheduling points"));
+        }
+    }
     assumptions.extend(checks::common_assumptions());
     let samples: Vec<Value> = total.samples.iter().map(|s| s.1.clone()).collect();
     let ev = json!({
@@ -192,6 +214,7 @@ fn cmd_check(args: &[String]) -> i32 {
             "determinism_selftest_last_result": std::fs::read_to_string(format!("{}/selftest/determinism.json", verif_dir())).ok().and_then(|s| serde_json::from_str::<Value>(&s).ok()).unwrap_or(Value::Null),
             "sensitivity_selftest_last_result": std::fs::read_to_string(format!("{}/mutants/RESULTS.txt", verif_dir())).ok().map(|s| { let n = s.lines().count(); let bad = s.lines().filter(|l| l.contains("UNEXPECTED")).count(); json!({"catalogue_lines": n, "unexpected": bad, "lines_for_this_property": s.lines().filter(|l| l.contains(&format!(" {} exit=", check.prop))).collect::<Vec<_>>()}) }).unwrap_or(Value::Null),
             "exhaustive": false,
+            "source_dictionary": { "what": "integer literals mined from /repo/src (each with +-1), mixed into generated lengths, positions, chunk/write/file sizes", "size": dict::dict().len(), "values_sample": dict::dict().iter().take(60).collect::<Vec<_>>() },
             "build_profile": std::env::var("VERIF_PROFILE_NAME").unwrap_or_else(|_| "release (debug-assertions and overflow-checks ON in http-serve)".into()),
         },
         "assumptions": assumptions,
